@@ -159,7 +159,7 @@ SRC_TIE = {
     'C08': {'Pds': ['_pds_to_dict', '_icc_to_dict', '_pds_to_de'], 'Bits': ['BitArray.tolist', 'BitArray.fromlist'],
             'Field': ['_get_field_length', '_iso8583_to_field_frame', '_string_to_pytype'],
             'Loop': ['_iso8583_to_dict_loop', '_iso8583_to_dict']},
-    'C12': {'Pds': ['_pds_to_dict', '_icc_to_dict', '_pds_to_de']},
+    'C12': {'Pds': ['_pds_to_dict', '_icc_to_dict', '_pds_to_de'], 'Carriers': ['_dict_to_iso8583_carriers', '_pds_to_de']},
     'C13': {'Pin': ['Iso0PinBlock.to_bytes', 'Iso0PinBlock.from_bytes', 'Iso4PinBlock.to_bytes', 'Iso4PinBlock.from_bytes'],
             'Keys': ['Tdes_encrypt', 'Tdes_decrypt', 'Aes_encrypt', 'Aes_decrypt']},
     'C14': {'Misc': ['_get_tsp', '_pan_prefix'],
